@@ -238,6 +238,9 @@ type Val struct {
 	IP     string
 	NotSet bool // STRING / IP
 	Unspec bool // the documentation does not determine this value
+	// NonEmpty: an unspecified STRING that is nevertheless known to be set and non-empty
+	// (e.g. text appended to a not-set string: "abc" or "(null)abc"): it is truthy
+	NonEmpty bool
 }
 
 func (v Val) String() string {
@@ -486,8 +489,9 @@ func (env *Env) assign(s *Stmt) {
 			env.Vars[s.Name] = Val{T: TStr, S: rs} // a local is always set once assigned
 		case "+=":
 			if l.NotSet || (r.T == TStr && r.NotSet) {
-				// appending to / appending a not-set string: "(null)" rendering is not specified
-				env.Vars[s.Name] = Val{T: TStr, Unspec: true}
+				// appending to / appending a not-set string: "(null)" rendering is not specified,
+				// but whatever the rendering, appending non-empty text gives a set, non-empty string
+				env.Vars[s.Name] = Val{T: TStr, Unspec: true, NonEmpty: rs != "" || (!l.NotSet && l.S != "")}
 				return
 			}
 			env.Vars[s.Name] = Val{T: TStr, S: l.S + rs}
@@ -819,6 +823,10 @@ func (env *Env) cond(e *Expr) bool {
 			x = e.A
 		}
 		v := env.eval(x)
+		if v.Unspec && v.T == TStr && v.NonEmpty {
+			env.ValueDependent++
+			return true
+		}
 		if v.Unspec {
 			env.abort("truthiness of unspecified value")
 			return false
